@@ -82,6 +82,10 @@ structure Item where
   variants : List Variant := []          -- enums
   deriving Repr, Inhabited
 
+/-- a unit variant, or a newtype variant whose only field is skipped (serde and ts-rs treat it like a unit variant) -/
+def Variant.unitLike (v : Variant) : Bool :=
+  v.shape = .unit || (v.shape = .tuple && (match v.fields with | [fld] => fld.attr.skip | _ => false))
+
 abbrev Env := List Item
 
 namespace Env
